@@ -75,7 +75,7 @@ def transform_contract(scope, node):
 
 def stub_expr_transf(log=None):
     def f(it, nsp, node):
-        scope = nsp.tag if isinstance(nsp, Opaque) else repr(nsp)
+        scope = nsp.tag if isinstance(nsp, Opaque) else getattr(nsp, "tag", type(nsp).__name__)
         r = transform_contract(scope, node)
         if log is not None:
             log.append((scope, node))
@@ -127,15 +127,29 @@ def mk_nsp(tag="nsp", kinds=("global", "function", "class"), **fields):
 
 
 def mk_global(tag="G", if_style="if_expr", expr_wrapper="chain_call", seq_contract=True):
-    """abstract NamespaceGlobal; expr_wraper by contract Seq(list) (proved in suites/c01)"""
-    cfg = Opaque((tag, "configs"), object, fields=dict(if_style=if_style, expr_wrapper=expr_wrapper, unparser="ast.unparse"))
+    """A REAL NamespaceGlobal object (so that class-level state behind its attributes is
+    really there and writes to it are seen by the frame check), with real Configs carrying
+    the given options; expr_wraper is replaced by its contract Seq(list) (proved in
+    suites/c01) unless seq_contract is False."""
+    import symtable
+    ns = nsmod()
+    cfgm = extract.repo_module("oneliner.config")
+    cfg = cfgm.Configs()
+    cfg.if_style = if_style
+    cfg.expr_wrapper = expr_wrapper
+    g = ns.NamespaceGlobal(symtable.symtable("", "<harness>", "exec"), [])
+    g.load_configs(cfg)
+    g.tag = tag
+    c = ctx()
+    c.fresh_objs.add(id(g))
+    c.keep.append(g)
 
     def wraper(lst):
         snapshot = list(lst)
         ctx().log("expr_wraper", snapshot)
         return absnode(("seq", tag), ("seq", snapshot))
-    g = mk_nsp(tag, kinds=("global",), configs=cfg, expr_wraper=HFn(wraper, "expr_wraper"),
-               use_itertools=False, use_importlib=False, use_preset_iter_wrapper=False)
+    if seq_contract:
+        g.expr_wraper = HFn(wraper, "expr_wraper")
     return g
 
 
